@@ -1452,6 +1452,55 @@ theorem init_inv (hwf : WF p bs) (pos : Int) (h0 : 0 ≤ pos) (hn : pos ≤ env.
 
 end stepping
 
+/-! ## unfolding lemmas for `step` / `run` (for proofs built on the model) -/
+
+section unfolding
+variable (p : Prog) (env : Env)
+
+@[simp] theorem finish_advance (s : VMState) (i : Nat) : finish p (s, .advance i) = doAdvance p s i := rfl
+@[simp] theorem finish_goto (s : VMState) (t : Int) : finish p (s, .goto t) = doGoto p s t := rfl
+@[simp] theorem finish_back (s : VMState) : finish p (s, .back) = doBacktrack p s := rfl
+@[simp] theorem finish_halt (s : VMState) : finish p (s, .halt) = .stop s := rfl
+
+theorem step_of_body_ok {s : VMState} {r : VMState × Exit} (h : body p env s = .ok r) :
+    step p env s = finish p r := by simp [step, h]
+
+theorem step_of_body_error {s : VMState} {f : Fault} (h : body p env s = .error f) :
+    step p env s = .fault f := by simp [step, h]
+
+@[simp] theorem run_zero (s : VMState) : run p env 0 s = (.fuel s, 0) := rfl
+
+theorem run_succ_next {s s' : VMState} {chk : Bool} (fuel : Nat) (h : step p env s = .next s' chk) :
+    run p env (fuel + 1) s = ((run p env fuel s').1, (run p env fuel s').2 + 1) := by
+  simp [run, h]
+
+theorem run_succ_stop {s s' : VMState} (fuel : Nat) (h : step p env s = .stop s') :
+    run p env (fuel + 1) s = (.done s', 1) := by simp [run, h]
+
+theorem run_succ_fault {s : VMState} {f : Fault} (fuel : Nat) (h : step p env s = .fault f) :
+    run p env (fuel + 1) s = (.fault f, 1) := by simp [run, h]
+
+/-- the observed run that the driver executes (leg W) is `run`: same outcome, same number of iterations -/
+theorem runObs_eq_run {σ : Type} (obs : σ → VMState → σ) : ∀ (fuel : Nat) (s : VMState) (a : σ) (n : Nat),
+    (runObs p env obs fuel s a n).1 = (run p env fuel s).1 ∧
+    (runObs p env obs fuel s a n).2.2 = n + (run p env fuel s).2 := by
+  intro fuel
+  induction fuel with
+  | zero => intro s a n; simp [runObs, run]
+  | succ fuel ih =>
+    intro s a n
+    unfold runObs run
+    cases h : step p env s with
+    | fault f => simp
+    | stop s' => simp
+    | next s' chk =>
+      simp only
+      have := ih s' (obs a s) (n + 1)
+      refine ⟨this.1, ?_⟩
+      rw [this.2]; omega
+
+end unfolding
+
 /-! ## a concrete program for the non-vacuity examples -/
 
 /-- `Lazybranch 18; Setmark; Nullmark; Goto 11; One a; Oneloopatomic b 1; Branchmark 6; One c;
